@@ -34,7 +34,7 @@ of the run-length encoders, as C01.encoders), C10 (cardinality), C14 (variable l
 """
 NOT_DECIDED = "that each individual encoding (window arithmetic, derivation index shifts, Latin-square rotations, the propositional meaning of the run-length implications beyond their recorded case table) means its documentation for every design."
 
-INCLUDED = ["C10", "C14", "C15", "C16", "C18", "C26"]
+INCLUDED = ["C10", "C14", "C15", "C16", "C18", "C25", "C26"]
 NO_EMISSION = {"Reify": "documented no-op: only makes a factor non-implied", "ContinuousConstraint": "acts on continuous values after the discrete solve",
                "MinimumTrials": "acts on the trial count (Block.min_trials), skipped by build_backend_request"}
 
@@ -310,8 +310,7 @@ def rule_fresh(ctx):
     ctx.require(n >= 10, "only %d counter events found in the encoders (10 confirmed by hand)" % n)
 
 
-def rule_pipeline(ctx):
-    R = "C01.pipeline"
+def rule_pipeline(ctx, R="C01.pipeline"):
     it = ctx.fn("iterate_sat:IterateSATGen.sample")
     cs = [c for c in calls(it.node) if call_attr(c) == "sample_non_uniform"]
     ctx.require(len(cs) == 1 and len(cs[0].args) == 5, "IterateSATGen.sample: sample_non_uniform call not found")
